@@ -8,6 +8,7 @@ import (
 	"fmt"
 	"os"
 	"path/filepath"
+	"runtime"
 	"runtime/debug"
 	"runtime/pprof"
 	"strconv"
@@ -28,6 +29,11 @@ func main() {
 	configs := flag.String("configs", "", "comma separated GOOS/GOARCH list (overrides tier default)")
 	cpuprof := flag.String("cpuprofile", "", "write a CPU profile (development)")
 	flag.Parse()
+	// several checks (and mutant runs) execute side by side: do not let each of
+	// them claim every core
+	if n := runtime.NumCPU(); n > 8 && os.Getenv("RAINLINT_ALLCPU") == "" {
+		runtime.GOMAXPROCS(8)
+	}
 	if *cpuprof != "" {
 		f, _ := os.Create(*cpuprof)
 		pprof.StartCPUProfile(f)
